@@ -238,19 +238,30 @@ impl Visitor<Diagnostic> for LibraryRenderer {
         &mut self,
         node: &DurationLiteral,
     ) -> Result<Self::Value, Diagnostic> {
-        // Always write out as milliseconds. The largest unit is allowed to be "out of range"
+        // Write out as milliseconds. The largest unit is allowed to be "out of range"
         let nanos = node.interval.whole_nanoseconds();
-        let mut val = format!("TIME#{}ms", node.interval.whole_milliseconds());
-        let sub_millis = (nanos % 1_000_000).unsigned_abs();
-        if sub_millis != 0 {
-            // Keep the part below a millisecond as a fraction
-            let sign = if nanos < 0 { "-" } else { "" };
-            let fraction = format!("{:06}", sub_millis);
+        let sign = if nanos < 0 { "-" } else { "" };
+        let magnitude = nanos.unsigned_abs();
+
+        // The number before the unit is read as a 64-bit integer. The longest
+        // durations do not fit as milliseconds so those are written as seconds.
+        let (nanos_per_unit, unit, digits) = if magnitude / 1_000_000 > u64::MAX as u128 {
+            (1_000_000_000, "s", 9)
+        } else {
+            (1_000_000, "ms", 6)
+        };
+
+        let mut val = format!("TIME#{}{}{}", sign, magnitude / nanos_per_unit, unit);
+        let sub_unit = magnitude % nanos_per_unit;
+        if sub_unit != 0 {
+            // Keep the part below the unit as a fraction
+            let fraction = format!("{:0width$}", sub_unit, width = digits);
             val = format!(
-                "TIME#{}{}.{}ms",
+                "TIME#{}{}.{}{}",
                 sign,
-                (nanos / 1_000_000).unsigned_abs(),
-                fraction.trim_end_matches('0')
+                magnitude / nanos_per_unit,
+                fraction.trim_end_matches('0'),
+                unit
             );
         }
         self.write_ws(val.as_str());
